@@ -42,7 +42,7 @@ impl IrValue {
 
             BigUint(big) => {
                 let bytes = big.to_bytes_le();
-                if bytes.len() > n {
+                if big.bits() > 8 * n as u64 {
                     Err(Error::Other(format!("cannot convert {big} to Bytes({n})")))
                 } else {
                     let mut result = bytes;
